@@ -1,9 +1,9 @@
-(* The property theorems of C01/C02/C03/C08/C14 with their curve premise DISCHARGED for secp256k1 (Props/Secp256k1.v).
+(* The property theorems of C01/C02/C03/C08/C14/C16 with their curve premise DISCHARGED for secp256k1 (Props/Secp256k1.v).
    Statements: `Check <name>`.  Not in any property's MAKE_TARGETS (it imports several Props files); built by `make setup`. *)
 From Coq Require Import ZArith.
 Require Import Bits.Lib.Result Bits.Lib.Bytes Bits.Model.Ecmath Bits.Proofs.Ecmath Bits.Proofs.Ecdsa Bits.Spec.Secp256k1.
 Require Import Bits.GL.Secp256k1Primes Bits.GL.SqrtFacts.
-Require Bits.Props.C01 Bits.Props.C02 Bits.Props.C03 Bits.Props.C08 Bits.Props.C12 Bits.Props.C14.
+Require Bits.Props.C01 Bits.Props.C02 Bits.Props.C03 Bits.Props.C08 Bits.Props.C12 Bits.Props.C14 Bits.Props.C16.
 Local Open Scope Z_scope.
 
 (* ---- the property theorems with the premise discharged (their statements: Check <name>) ---- *)
@@ -31,7 +31,18 @@ Definition C14_is_point_total_secp256k1 := C14.C14_is_point_total _ _ _ S1.
 Definition C14_sec1_nonresidue_rejected_secp256k1 := C14.C14_sec1_nonresidue_rejected _ _ _ S1.
 Definition C14_compressed_pubkey_secp256k1 := C14.C14_compressed_pubkey _ _ _ S1.
 
+(* C16: every input of the transaction send_tx returns is unlocked (full template form), on secp256k1 itself *)
+Lemma secp256k1_p_le : Secp256k1.p <= 2 ^ 256.  Proof. vm_compute. discriminate. Qed.
+Lemma secp256k1_n_le : Secp256k1.n <= 2 ^ 256.  Proof. vm_compute. discriminate. Qed.
+Definition C16_send_unlocks_secp256k1 :=
+  fun sha256 ripemd160 scriptpubkey is_address =>
+    C16.C16_send_unlocks _ _ _ _ _ sha256 ripemd160 scriptpubkey is_address CF secp256k1_sqrt_facts secp256k1_p_le secp256k1_n_le.
+Definition C16_sign_inputs_valid_secp256k1 :=
+  fun sha256 ripemd160 scriptpubkey is_address =>
+    C16.C16_sign_inputs_valid _ _ _ _ _ sha256 ripemd160 scriptpubkey is_address CF.
+
 Check C01_sign_sound_secp256k1.
+Check C16_send_unlocks_secp256k1.
 Check C02_verify_iff_secp256k1.
 Check C03_scalar_mul_spec_secp256k1.
 Check C14_sec1_accept_iff_secp256k1.
@@ -39,3 +50,4 @@ Print Assumptions C01_sign_sound_secp256k1.
 Print Assumptions C02_verify_iff_secp256k1.
 Print Assumptions C03_scalar_mul_spec_secp256k1.
 Print Assumptions C14_sec1_accept_iff_secp256k1.
+Print Assumptions C16_send_unlocks_secp256k1.
